@@ -148,6 +148,33 @@ pub struct LegOut {
     pub alloc: alloc::Window,
     /// input buffer uniquely owned again after the leg dropped everything
     pub input_unique: bool,
+    /// the error object itself, kept alive until this LegOut is dropped (only while `hold_errors` is on)
+    pub held: Option<Box<dyn std::any::Any>>,
+}
+
+thread_local! {
+    static HOLD_ERRORS: std::cell::Cell<bool> = const { std::cell::Cell::new(false) };
+}
+
+/// While on, a failing leg keeps its error object alive inside the returned `LegOut` instead of
+/// dropping it before returning (for probes that need two errors alive at the same time).
+pub fn hold_errors(on: bool) {
+    HOLD_ERRORS.with(|h| h.set(on));
+}
+
+fn holding() -> bool {
+    HOLD_ERRORS.with(|h| h.get())
+}
+
+fn from_result_held(r: Result<Val, ThriftException>, held: &mut Option<Box<dyn std::any::Any>>) -> LegRes {
+    match r {
+        Err(e) if holding() => {
+            let lr = LegRes::Err { info: err_info(&e), depth_limit: is_depth_limit(&e), harness: is_harness_err(&e) };
+            *held = Some(Box::new(e));
+            lr
+        }
+        other => from_result(other),
+    }
 }
 
 fn from_result(r: Result<Val, ThriftException>) -> LegRes {
@@ -226,6 +253,19 @@ where
                 (4, body),
             ])))
         }
+        Level::Envelopes => {
+            let mut msgs = vec![];
+            for i in 0..3i16 {
+                let m = p.read_message_begin()?;
+                let body = read_tv(p, TType::Struct, 1)?;
+                p.read_message_end()?;
+                msgs.push((
+                    i + 1,
+                    TV::Struct(vec![(1, TV::Binary(m.name.as_bytes().to_vec())), (2, TV::I8(m.message_type as u8 as i8)), (3, TV::I32(m.sequence_number)), (4, body)]),
+                ));
+            }
+            Ok(Val::Tv(TV::Struct(msgs)))
+        }
         Level::Gen(_) | Level::SkipUnchecked | Level::Pb(_) => unreachable!(),
     })();
     let consumed = total - p.buf().remaining();
@@ -290,8 +330,9 @@ pub fn run_mem(case: &Case, gens: &[GenType], caps: AllocCaps, tag: u64) -> LegO
         }
     }));
     let win = alloc::window_end();
+    let mut held: Option<Box<dyn std::any::Any>> = None;
     let (res, consumed, skip_ret, next, consumed_total) = match r {
-        Ok(g) => (from_result(g.res), g.consumed, g.skip_ret, g.next, g.consumed_total),
+        Ok(g) => (from_result_held(g.res, &mut held), g.consumed, g.skip_ret, g.next, g.consumed_total),
         Err(_) => {
             let (site, msg) = take_panic();
             (LegRes::Panic { site, msg }, 0, None, None, 0)
@@ -313,6 +354,7 @@ pub fn run_mem(case: &Case, gens: &[GenType], caps: AllocCaps, tag: u64) -> LegO
         stream: StreamStats::default(),
         alloc: win,
         input_unique,
+        held,
     }
 }
 
@@ -407,6 +449,19 @@ async fn stream_main<P: TAsyncInputProtocol>(p: &mut P, level: &Level, pos: &std
                     (3, TV::I32(m.sequence_number)),
                     (4, body),
                 ])))
+            }
+            Level::Envelopes => {
+                let mut msgs = vec![];
+                for i in 0..3i16 {
+                    let m = p.read_message_begin().await?;
+                    let body = read_tv_async(p, TType::Struct, 1).await?;
+                    p.read_message_end().await?;
+                    msgs.push((
+                        i + 1,
+                        TV::Struct(vec![(1, TV::Binary(m.name.as_bytes().to_vec())), (2, TV::I8(m.message_type as u8 as i8)), (3, TV::I32(m.sequence_number)), (4, body)]),
+                    ));
+                }
+                Ok(Val::Tv(TV::Struct(msgs)))
             }
             Level::Gen(_) | Level::SkipUnchecked | Level::Pb(_) => unreachable!(),
         }
@@ -504,8 +559,9 @@ pub fn run_stream(case: &Case, gens: &[GenType], caps: AllocCaps, tag: u64) -> L
     let win = alloc::window_end();
     let stats = ps.inner.stats.clone();
     let total_pulled = ps.inner.pos;
+    let mut held: Option<Box<dyn std::any::Any>> = None;
     let (res, consumed, next, polls, ticks) = match r {
-        Ok(ExecResult::Done { out, polls, ticks }) => (from_result(out.res), out.consumed, out.next, polls, ticks),
+        Ok(ExecResult::Done { out, polls, ticks }) => (from_result_held(out.res, &mut held), out.consumed, out.next, polls, ticks),
         Ok(ExecResult::OverBudget { polls }) => (LegRes::Hang { polls }, total_pulled, None, polls, 0),
         Ok(ExecResult::LostWake { polls }) => (LegRes::LostWake { polls }, total_pulled, None, polls, 0),
         Err(_) => {
@@ -527,6 +583,7 @@ pub fn run_stream(case: &Case, gens: &[GenType], caps: AllocCaps, tag: u64) -> L
         stream: stats,
         alloc: win,
         input_unique: true,
+        held,
     }
 }
 
@@ -583,6 +640,7 @@ pub fn run_pb(case: &Case, fragmented: bool, caps: AllocCaps, tag: u64) -> LegOu
         }
     }));
     let win = alloc::window_end();
+    let mut held: Option<Box<dyn std::any::Any>> = None;
     let (res, consumed) = match r {
         Ok((Ok(()), consumed, st)) => {
             stats.polls = st.0;
@@ -615,6 +673,9 @@ pub fn run_pb(case: &Case, fragmented: bool, caps: AllocCaps, tag: u64) -> LegOu
             };
             let mut m = msg;
             m.truncate(300);
+            if holding() {
+                held = Some(Box::new(e));
+            }
             (LegRes::Err { info: ErrInfo { kind: kind.into(), msg: m }, depth_limit: kind == "pb:recursion_limit", harness }, consumed)
         }
         Err(_) => {
@@ -628,5 +689,5 @@ pub fn run_pb(case: &Case, fragmented: bool, caps: AllocCaps, tag: u64) -> LegOu
         Some(b) => b.is_empty() || b.is_unique(),
         None => true,
     };
-    LegOut { res, consumed, skip_ret: None, next: None, consumed_total: consumed, polls: 0, ticks: 0, stream: stats, alloc: win, input_unique }
+    LegOut { res, consumed, skip_ret: None, next: None, consumed_total: consumed, polls: 0, ticks: 0, stream: stats, alloc: win, input_unique, held }
 }
